@@ -34,7 +34,7 @@ MANIFEST = dict(
 REPORT_OPTS = [
     ['-L'], ['-l'], ['-L', '-OLIST', 'other.lst'], ['-u'], ['-C'], ['-s'], ['-I'],
     ['-g', 'MAP'], ['-g', 'NOICE'], ['-g', 'ATMEL'], ['-g'],
-    ['-t', '0'], ['-t', '1'], ['-t', '255'], ['-t', '85'], ['-x'], ['-x', '-x'], ['-n'], ['-A'],
+    ['-t', '0'], ['-t', '1'], ['-t', '255'], ['-t', '85'], ['+t', '32'], ['+t', '63'], ['+t', '34'], ['-x'], ['-x', '-x'], ['-n'], ['-A'],
     ['-r'], ['-r', '2'], ['-E', 'err.log'], ['-E', '!1'], ['-E', '!2'], ['-E'], ['-gnuerrors'],
     ['-LISTRADIX', '2'], ['-LISTRADIX', '8'], ['-LISTRADIX', '10'], ['-LISTRADIX', '16'], ['-LISTRADIX', '36'],
     ['-P'], ['-M'], ['-h'], ['-SPLITBYTE', ':'], ['-SPLITBYTE', '.'],
@@ -42,7 +42,7 @@ REPORT_OPTS = [
 STRINGIFY_SENSITIVE = (['-h'], ['-SPLITBYTE', ':'], ['-SPLITBYTE', '.'])
 LOCALES = [None, {'LANG': 'de_DE', 'LC_ALL': 'de_DE'}, {'LANG': 'en_US', 'LC_ALL': 'en_US'},
            {'LANG': 'de_DE.UTF-8', 'LC_ALL': 'de_DE.UTF-8', 'LC_MESSAGES': 'de_DE'}, {'LANG': 'C', 'LC_ALL': 'C'}]
-VARIATIONS = ['none', 'cwd-parent', 'outpath', 'ascmd', 'keyfile', 'repeat', 'otherdir']
+VARIATIONS = ['none', 'cwd-parent', 'outpath', 'ascmd', 'keyfile', 'keyfile-nonl', 'ascmd-keyfile', 'repeat', 'otherdir']
 
 
 def plan(tier, seed):
@@ -87,13 +87,18 @@ def run_case(case, ctx):
     else:
         name = 'g%d' % case['gen']
         text = gen_prog.mixed_program(rng)
+        # code that depends on symbols defined on the command line
+        gcpu = text.split('\n')[0].split('\t')[2]
+        gbop = gen_prog.CPU_TABLE[gcpu][0]
+        text = text.replace('\tend\n', '\tifdef\tTURBO\n\t%s\tREV,77\n\tendif\n\tend\n' % gbop)
+        text = text.replace('konst\tequ\t', 'konst\tequ\tREV+')
         with open(os.path.join(src_dir, name + '.asm'), 'w', encoding='latin-1') as f:
             f.write(text)
-        flags = []
+        flags = ['-D', 'REV=%d' % rng.randrange(1, 9), '-D', 'TURBO']
         all_src = text.encode('latin-1')
     out.sets['programs'].add(name)
-    base_args = flags + ['-q', '-i', corpus.include_dir()]
-    base = asl.assemble(ctx, name + '.asm', base_args, out='base.p', cwd=src_dir)
+    base_args = ['-q', '-i', corpus.include_dir()]
+    base = asl.assemble(ctx, name + '.asm', flags + base_args, out='base.p', cwd=src_dir)
     out.sample = {'program': name, 'baseline_rc': base.rc}
     if base.run.timed_out:
         out.inconc('timeout: baseline')
@@ -106,7 +111,15 @@ def run_case(case, ctx):
             return
     base_sha = sha(base.p)
     configs = []
-    for ci in range(case['k']):
+    # configuration 0: every report option at once (one representative of each option that takes a value), so that
+    # the effect of any single option on the code is seen for every program in every run; the culprit is isolated afterwards
+    allopts = [['-L'], ['-u'], ['-C'], ['-s'], ['-I'], ['-g', 'MAP'], ['-t', '255'], ['-x', '-x'], ['-n'], ['-A'], ['-r'],
+               ['-gnuerrors'], ['-LISTRADIX', rng.choice(['8', '2', '36'])], ['-P'], ['-M'], ['-E', 'err.log'], ['-h'],
+               ['-SPLITBYTE', rng.choice([':', '.'])]]
+    if b'\\{' in all_src:
+        allopts = [o for o in allopts if o[0] not in ('-h', '-SPLITBYTE')]
+    configs.append((allopts, rng.choice(LOCALES), 'none'))
+    for ci in range(case['k'] - 1):
         nopt = rng.choice([1, 2, 3, 4, 6])
         opts = rng.sample(REPORT_OPTS, nopt)
         if b'\\{' in all_src:
@@ -115,7 +128,7 @@ def run_case(case, ctx):
         var = rng.choice(VARIATIONS)
         configs.append((opts, loc, var))
     for ci, (opts, loc, var) in enumerate(configs):
-        diff = _run_variant(ctx, src_dir, name, base_args, opts, loc, var, base, 'v%d' % ci)
+        diff = _run_variant(ctx, src_dir, name, base_args, opts, loc, var, base, 'v%d' % ci, flags=flags)
         out.obs['configurations'] += 1
         out.sig = None
         key_sig = (name, sorted(' '.join(o) for o in opts), sorted((loc or {}).items()), var)
@@ -125,12 +138,12 @@ def run_case(case, ctx):
             # which single ingredient is responsible?
             culprit = None
             for o in opts:
-                if _run_variant(ctx, src_dir, name, base_args, [o], None, 'none', base, 'r', repro=False):
+                if _run_variant(ctx, src_dir, name, base_args, [o], None, 'none', base, 'r', repro=False, flags=flags):
                     culprit = 'option ' + ' '.join(o)
                     break
-            if culprit is None and loc and _run_variant(ctx, src_dir, name, base_args, [], loc, 'none', base, 'r', repro=False):
+            if culprit is None and loc and _run_variant(ctx, src_dir, name, base_args, [], loc, 'none', base, 'r', repro=False, flags=flags):
                 culprit = 'locale ' + loc['LANG']
-            if culprit is None and var != 'none' and _run_variant(ctx, src_dir, name, base_args, [], None, var, base, 'r', repro=False):
+            if culprit is None and var != 'none' and _run_variant(ctx, src_dir, name, base_args, [], None, var, base, 'r', repro=False, flags=flags):
                 culprit = 'variation ' + var
             if culprit is None:
                 culprit = 'combination'
@@ -156,7 +169,7 @@ def _collect_reports(d, name):
     return res
 
 
-def _run_variant(ctx, src_dir, name, base_args, opts, loc, var, base, tag, repro=True):
+def _run_variant(ctx, src_dir, name, base_args, opts, loc, var, base, tag, repro=True, flags=()):
     """returns None if the variant agrees with the baseline, else a description"""
     out = ctx.out
     args = list(base_args)
@@ -179,15 +192,31 @@ def _run_variant(ctx, src_dir, name, base_args, opts, loc, var, base, tag, repro
         shutil.rmtree(wd, ignore_errors=True)
         shutil.copytree(src_dir, wd)
         cwd = wd
+    # the program's own code-affecting options (-D, -cpu, -alias, -relaxed ...) travel with the same carrier as the report options:
+    # the place an option is given must not matter
+    flags = list(flags)
+    grouped = []
+    i = 0
+    while i < len(flags):
+        if i + 1 < len(flags) and not flags[i + 1].startswith(('-', '+')):
+            grouped.append([flags[i], flags[i + 1]])
+            i += 2
+        else:
+            grouped.append([flags[i]])
+            i += 1
     if var == 'ascmd':
-        env['ASCMD'] = ' '.join(flat)
-    elif var == 'keyfile':
+        env['ASCMD'] = ' '.join(flags + flat)
+    elif var in ('keyfile', 'keyfile-nonl', 'ascmd-keyfile'):
+        body = '\n'.join(' '.join(o) for o in (opts + grouped))
         with open(os.path.join(cwd, 'opts.key'), 'w') as f:
-            f.write('\n'.join(' '.join(o) for o in opts) + '\n')
-        if flat:
-            args = args + ['@opts.key']
+            f.write(body + ('' if var == 'keyfile-nonl' else '\n'))
+        if body:
+            if var == 'ascmd-keyfile':
+                env['ASCMD'] = '@opts.key'
+            else:
+                args = args + ['@opts.key']
     else:
-        args = args + flat
+        args = flags + args + flat
     results = []
     reports = []
     for rep in range(2 if repro else 1):
